@@ -462,6 +462,29 @@ pub fn check_c18(ctx: &mut Ctx, input: &[u8]) {
             uconv!(TransportFeedback, "TransportFeedback");
             uconv!(PayloadFeedback, "PayloadFeedback");
         }
+        // Decoding the control information of an accepted feedback packet parses (a part of) the same byte
+        // string: the numbers of a Truncated / TooLarge error it returns obey the same clause, whatever
+        // part of the string they are about (the property fixes their order, not their reference).
+        macro_rules! fci {
+            ($P:ty, $pname:literal) => {{
+                if let Ok(p) = <$P>::parse(b) {
+                    macro_rules! one {
+                        ($F:ty, $fname:literal) => {{
+                            if let Err(e) = p.parse_fci::<$F>() {
+                                out.push((concat!($pname, "::parse_fci"), $fname, Some(<$P>::PACKET_TYPE), e, None));
+                            }
+                        }};
+                    }
+                    one!(Nack, "Nack");
+                    one!(Pli, "Pli");
+                    one!(Sli, "Sli");
+                    one!(Rpsi, "Rpsi");
+                    one!(Fir, "Fir");
+                }
+            }};
+        }
+        fci!(TransportFeedback, "TransportFeedback");
+        fci!(PayloadFeedback, "PayloadFeedback");
         if let Ok(c) = Compound::parse(b) {
             // An error yielded by the iteration is about one tile of the length chain. Which tile is
             // C11's business; here the error only has to be true of *some* tile (so that a tree on which
